@@ -127,6 +127,11 @@ def run(ctx):
                     n.nsmap = base
             elif rng.random() < 0.7:
                 n.nsmap = {"eml": "urn:e", "xsi": "urn:x"}
+        # children attached through the public `children` setter / list append carry no back link: drop some parent links
+        if rng.random() < 0.2:
+            for n in walk(root):
+                if n.parent is not None and rng.random() < 0.4:
+                    n.parent = None
         # registry pre-states other than "every node registered under its own id": an id bound to ANOTHER object (a clone
         # loaded from this tree's JSON re-uses the ids) or absent (entry deleted while the node is still in the tree)
         keep_alive = []
